@@ -103,8 +103,17 @@ def fam_point_eq():
     def run(prog, tier):
         fam_all = None
         fd = prog.classes["Point"].methods["__eq__"]
-        for variant in ("Point", "Foreign", "Int", "None", "Str", "Expr"):
+        spines = [f"Point[{a},{b}]" for a in range(3) for b in range(3)]
+        for variant in ["Point", "Foreign", "Int", "None", "Str", "Expr"] + spines:
             def setup(I, variant=variant):
+                if variant.startswith("Point["):
+                    # points written out with a and b coordinates (symbolic names and values)
+                    a, b = (int(t) for t in variant[6:-1].split(","))
+                    p, q = concrete_point(I, a, "p"), concrete_point(I, b, "q")
+                    I.ghost.update({"p": p, "q": q})
+                    I.ghost["replay"] = {"kind": "point_eq_hash", "root": None, "pt": None, "x": None,
+                                         "extra": {"b": lambda cz: point_value(cz, I, q), "a": lambda cz: point_value(cz, I, p)}}
+                    return lambda: I.call_funcdef(fd, [p, q], {})
                 p = H.make_point(I, "p")
                 q = H.make_point(I, "q") if variant == "Point" else tagged(I, variant, "other")
                 I.ghost.update({"p": p, "q": q})
@@ -119,9 +128,10 @@ def fam_point_eq():
                     return
                 r = res.outcome[1]
                 rb = z3.BoolVal(r) if isinstance(r, bool) else r
-                want = point_eq_spec(I, p, q) if variant == "Point" else z3.BoolVal(False)
+                want = point_eq_spec(I, p, q) if variant.startswith("Point") else z3.BoolVal(False)
                 emit("equals=same-coordinates", ["C12"], rb == want)
-            fam = H.run_family(prog, f"{nm}[{variant}]", setup, post)
+            fam = H.run_family(prog, f"{nm}[{variant}]", setup, post,
+                               bounded=("coordinates<=2 (written-out points)" if variant.startswith("Point[") else None))
             if fam_all is None:
                 fam_all, fam_all.name = fam, nm
             else:
